@@ -9,7 +9,8 @@
 (*              normalised - the control group)                              *)
 (*   Features : "tab", "trailing", "blanks3", "blanks2", "long", "backslash",*)
 (*              "hash",                                                     *)
-(*              "crlf_escape", "indent8"                                     *)
+(*              "crlf_escape", "indent8", "linesep" (U+2028 and a form feed: *)
+(*              line ends for str.splitlines, not for Python)                *)
 (*   Places   : "module", "in_def", "after_decorator", "between_imports",    *)
 (*              "call_arg", "dict_value", blank-line placements inside       *)
 (*              brackets, "nested_last_stmt" / "after_import_in_def" (the    *)
@@ -33,10 +34,11 @@ MultiLine(k) == k \in {"triple", "triple_single", "raw_triple", "bytes_triple", 
 Admissible(k, fs) ==
     /\ Cardinality(fs) <= MaxFeatures
     /\ (~MultiLine(k) /\ k # "comment" => fs \cap {"blanks3", "blanks2", "trailing", "indent8"} = {})
-    /\ (k = "comment" => fs \cap {"blanks3", "blanks2", "backslash", "crlf_escape"} = {})
+    /\ (k = "comment" => fs \cap {"blanks3", "blanks2", "backslash", "crlf_escape", "linesep"} = {})
     /\ ~({"blanks2", "indent8"} \subseteq fs)
     /\ (~MultiLine(k) => "blank1" \notin fs)
     /\ (k = "raw_triple" => "crlf_escape" \notin fs)
+    /\ (k = "bytes_triple" => "linesep" \notin fs)          \* a bytes literal holds ASCII only
 
 Init == case \in {[kind |-> k, feats |-> fs, place |-> p, len |-> n] :
                      k \in Kinds, fs \in {x \in SUBSET Features : TRUE}, p \in Places, n \in LineLengths}
